@@ -1,4 +1,5 @@
 import Bmc.Proofs.C03
+import Bmc.Proofs.GenLoops.BuildAndSend
 import Bmc.Proofs.GenEnc.V2Session
 import Bmc.Proofs.GenEnc.Message
 import Bmc.Proofs.GenEnc.AES128CBC
@@ -9,6 +10,11 @@ import Bmc.Proofs.GenEnc.AES128CBC
 #print axioms Bmc.Proofs.C03.iv_is_own_draw
 #print axioms Bmc.Proofs.C03.ith_datagram_uses_ith_draw
 #print axioms Bmc.Proofs.C03.wrapper_opens
+#print axioms Bmc.Proofs.GenLoops.V2Session_buildAndSend_gen_eq
+#print axioms Bmc.Proofs.GenLoops.V2Session_buildAndSend_events_eq
+#print axioms Bmc.Proofs.GenLoops.V2Session_buildAndSend_expired_context
+#print axioms Bmc.Proofs.GenLoops.V2Session_SendCommand_gen_eq
+#print axioms Bmc.Proofs.GenLoops.V2Session_SendCommand_events_eq
 #print axioms Bmc.Proofs.GenEnc.V2Session_enc_eq
 #print axioms Bmc.Proofs.GenEnc.Message_enc_eq
 #print axioms Bmc.Proofs.GenEnc.AES128CBC_enc_param
